@@ -4,7 +4,7 @@
 Require Extraction.
 Require Import ExtrOcamlBasic.
 From MOC.Base Require Import RangeSet.
-From MOC.Model Require Import Qty Ops1D Query Expr Build Repr Serial ST STSerial TextValid Store MocSet Freq SetQuery Neigh Valued ValuedCheck SetEffects Mom CellsSM Sweep2D Merge2D STBuilder SweepLine.
+From MOC.Model Require Import Qty Ops1D Query Expr Build Repr Serial ST STSerial TextValid Store MocSet Freq SetQuery Neigh Valued ValuedCheck SetEffects Mom CellsSM Sweep2D Merge2D STBuilder SweepLine AsciiCodec AsciiMoc.
 Extraction Language OCaml.
 Extraction "moc_model.ml"
   RangeSet.covb RangeSet.canonb RangeSet.canon_of
@@ -33,4 +33,6 @@ Extraction "moc_model.ml"
   Sweep2D.r2d_build
   Merge2D.merge2 Merge2D.op_union Merge2D.op_inter Merge2D.op_diff
   STBuilder.st_build
-  SweepLine.st_sweep.
+  SweepLine.st_sweep
+  AsciiCodec.to_ascii AsciiCodec.from_ascii AsciiCodec.isort_e AsciiCodec.st_to_ascii AsciiCodec.st_from_ascii
+  AsciiMoc.elems_of_cells AsciiMoc.ranges_of_elems.
